@@ -1,6 +1,7 @@
 package rules
 
 import (
+	"go/types"
 	"strings"
 
 	"golang.org/x/tools/go/ssa"
@@ -64,6 +65,17 @@ func runC09(c *an.Ctx) {
 	ht, hf := c.T(head), c.F(head)
 
 	// --- C09.a payload classification in the per-peer goroutines
+	// the flag "a trusted head was given": the boolean local that is assigned !TrustedHead.IsZero()
+	flagName := "useTrackedPeers"
+	an.Instrs(head, func(in ssa.Instruction) {
+		if st, isSt := in.(*ssa.Store); isSt {
+			if al, isAl := st.Addr.(*ssa.Alloc); isAl {
+				if v := ht.Of(st.Val); strings.HasPrefix(v, "!IsZero(") && strings.Contains(v, ".TrustedHead") {
+					flagName = al.Comment
+				}
+			}
+		}
+	})
 	nSend := 0
 	for _, cl := range head.AnonFuncs {
 		ct, cf := c.T(cl), c.F(cl)
@@ -77,7 +89,7 @@ func runC09(c *an.Ctx) {
 		var useTracked an.Fact
 		haveTracked := false
 		for _, f := range condFacts(ct) {
-			if f.Op == "B" && strings.Contains(f.A, "fv:useTrackedPeers") {
+			if f.Op == "B" && strings.Contains(f.A, "fv:"+flagName+"@") {
 				useTracked, haveTracked = an.B(f.A), true
 			}
 		}
@@ -174,7 +186,7 @@ func runC09(c *an.Ctx) {
 			if !isSt {
 				return
 			}
-			if al, isAl := st.Addr.(*ssa.Alloc); isAl && al.Comment == "useTrackedPeers" {
+			if al, isAl := st.Addr.(*ssa.Alloc); isAl && al.Comment == flagName {
 				v := an.Stable(ht.Of(st.Val))
 				okFlag = strings.HasPrefix(v, "!IsZero(") && strings.Contains(v, ".TrustedHead")
 			}
@@ -259,6 +271,47 @@ func runC09(c *an.Ctx) {
 	}
 	c.Check(askedOK, "C09.c", "quorum-of-asked-peers", "the quorum is computed from the number of peers that were actually asked", head, nil, "minHeadResponses("+peersLen+")", nil)
 
+	// the peers asked: the trusted peers, and the tracked (untrusted) ones only when a trusted head was
+	// given — the very condition under which the per-peer goroutines verify what they receive
+	{
+		nTracked := 0
+		an.Instrs(head, func(in ssa.Instruction) {
+			call, isCall := in.(*ssa.Call)
+			if !isCall {
+				return
+			}
+			cal := an.StaticCallee(&call.Call)
+			if cal == nil || an.FuncName(cal) != "p2p.(*peerTracker).getPeers" {
+				return
+			}
+			nTracked++
+			withTrusted := false
+			for _, f := range hf.AtInstr(call) {
+				if f.Op == "B" && f.Pos && strings.HasPrefix(f.A, "!IsZero(") && strings.Contains(f.A, ".TrustedHead") {
+					withTrusted = true
+				}
+			}
+			c.Check(withTrusted, "C09.a", "tracked-peers-only-with-trusted-head", "the tracked (untrusted) peers are asked only when a trusted head was given to verify their answers against", head, call, "", hf.AtInstr(call))
+		})
+		c.Min("C09.a", "uses of the tracked peers in Head", nTracked, 1)
+		// the collection of answers starts empty (a pre-sized slice would carry zero headers into the
+		// fallback, which returns its maximum with a nil error)
+		nColl := 0
+		an.Instrs(head, func(in ssa.Instruction) {
+			ms, isMS := in.(*ssa.MakeSlice)
+			if !isMS {
+				return
+			}
+			sl, isSl := ms.Type().Underlying().(*types.Slice)
+			if !isSl || sl.Elem().String() != "H" {
+				return
+			}
+			nColl++
+			k, isK := ms.Len.(*ssa.Const)
+			c.Check(isK && k.Value != nil && k.Value.ExactString() == "0", "C09.d", "collection-starts-empty", "the slice the answers are collected in starts with length 0", head, ms, "len "+ht.Of(ms.Len), nil)
+		})
+		c.Min("C09.d", "collections of answers in Head", nColl, 1)
+	}
 	nQuorum, nFallback, nEmpty := 0, 0, 0
 	for _, r := range hf.Returns() {
 		fs := hf.AtInstr(r)
